@@ -221,6 +221,32 @@ func (eng *Engine) implementations(it types.Type, m *types.Func) []*ssa.Function
 	return out
 }
 
+// concreteImplementers: the repository's concrete types whose method set satisfies iface
+func (eng *Engine) concreteImplementers(iface *types.Interface) []types.Type {
+	var out []types.Type
+	for _, p := range eng.pkgs {
+		if !strings.HasPrefix(p.Pkg.Path(), modulePath) {
+			continue
+		}
+		for _, mem := range p.Members {
+			tn, ok := mem.(*ssa.Type)
+			if !ok {
+				continue
+			}
+			if _, isIface := tn.Type().Underlying().(*types.Interface); isIface {
+				continue
+			}
+			if types.Implements(tn.Type(), iface) {
+				out = append(out, tn.Type())
+			} else if types.Implements(types.NewPointer(tn.Type()), iface) {
+				out = append(out, types.NewPointer(tn.Type()))
+			}
+		}
+	}
+	sort.Slice(out, func(i, j int) bool { return typeKey(out[i]) < typeKey(out[j]) })
+	return out
+}
+
 // targets: every non-generated function, method and closure of the packages in scope
 func (eng *Engine) targets() []*ssa.Function {
 	var out []*ssa.Function
@@ -248,6 +274,12 @@ func (eng *Engine) targets() []*ssa.Function {
 		// not stand-alone for arbitrary arguments
 		if eng.contractFor(fn) == nil && len(findLoops(fn)) == 0 && !eng.isAPI(fn) {
 			continue
+		}
+		if fc := eng.contractFor(fn); fc != nil && fc.Inline {
+			continue
+		}
+		if fn.TypeParams().Len() > 0 && len(fn.TypeArgs()) == 0 {
+			continue // generic origin: its instances are verified
 		}
 		out = append(out, fn)
 	}
@@ -355,11 +387,13 @@ func (eng *Engine) verifyFunc(fn *ssa.Function) (res *FnResult) {
 			fx.assignSet = fx.resolveAssigns(fc, env, st)
 		}
 		var reqs []Term
+		fx.assumeMode = true
 		for _, c := range fc.Requires {
 			t := fr.evalSpec(c.E, st, nil).v.t
 			reqs = append(reqs, t)
 			s.assume("true", t)
 		}
+		fx.assumeMode = false
 		if len(reqs) > 0 {
 			// vacuity guard: the precondition must be satisfiable
 			ob := &Obligation{Name: res.Name2(eng) + "/cover/requires", Kind: "cover", Func: eng.relName(fn), Text: "requires is satisfiable", Props: fc.Props, MustSat: true}
@@ -393,6 +427,7 @@ func (eng *Engine) verifyLemma(l *Lemma) (res *FnResult) {
 	st := &State{guard: "true", heaps: map[string]Term{}, base: "0", ghost: map[string]Term{}}
 	st.alloc = s.declare("alloc0", "Int")
 	s.assume("true", "(>= alloc0 1000)")
+	initGhostState(fx, st)
 	fx.entry = st.clone()
 	fx.allocEntry = st.alloc
 	t := fx.evalIn(l.E, map[string]SVal{}, st, st, nil).v.t
